@@ -125,7 +125,7 @@ def check(case: Dict[str, Any]) -> CaseInfo:
     classes: List[str] = []
     with scratch_dir() as d:
         files = write_case(case, d)
-        ta = load_analysis(files, d, mp=False)
+        ta = load_analysis(files, d, mp=False, prelude=case.get("prelude"))
         outdir = os.path.join(d, "out")
         os.makedirs(outdir)
         df = hta_call("get_frequent_cuda_kernel_sequences", lambda: ta.get_frequent_cuda_kernel_sequences(
